@@ -33,14 +33,34 @@ def reset_globals():
     data.update({i: '' for i in range(9)})
 
 
-def set_identity(objects, order=None):
-    """Install an identity (dict id -> str/bytes) into the shared identity dict, which is first put back into its
-    import-time state (ids 0..8 empty); the objects are then configured one by one in the given order (default ascending)."""
+NAMES = ['VendorName', 'ProductCode', 'MajorMinorRevision', 'VendorUrl', 'ProductName', 'ModelName', 'UserApplicationName']
+
+
+def set_identity(objects, order=None, via='private', pristine=True):
+    """Install an identity (dict id -> str/bytes).  The shared identity dict is first put back into its import-time state (ids
+    0..8 empty; there is no public way to remove an object) unless pristine=False; the objects are then configured one by one in
+    the given order (default ascending) - via 'private' (straight into the dict), 'setitem' (identity[oid] = v), 'update'
+    (identity.update({oid: v})), 'properties' (identity.VendorName = v ... for ids 0..6, setitem for the private range) or
+    'constructor' (ModbusDeviceIdentification(info={...}))."""
     data = ModbusDeviceIdentification._ModbusDeviceIdentification__data
-    data.clear()
-    data.update({i: '' for i in range(9)})
-    for k in (order if order is not None else sorted(objects)):
-        data[k] = objects[k]
+    if pristine:
+        data.clear()
+        data.update({i: '' for i in range(9)})
+    ident = ModbusControlBlock().Identity
+    keys = list(order if order is not None else sorted(objects))
+    if via == 'constructor':
+        ModbusDeviceIdentification(info={k: objects[k] for k in keys})
+        return
+    for k in keys:
+        v = objects[k]
+        if via == 'private':
+            data[k] = v
+        elif via == 'update':
+            ident.update({k: v})
+        elif via == 'properties' and k < 7:
+            setattr(ident, NAMES[k], v)
+        else:
+            ident[k] = v
 
 
 class Coverage(object):
